@@ -17,7 +17,7 @@ fn observe(out: &mut String, keys: &[u64]) {
 fn produce(r: &mut Rng, out: &mut String, k: u64, t: u64, only_chunk: bool) {
     let base = k << 16;
     let start = base + *r.pick(&[0u64, 1, 63, 64, 1000, 30000]);
-    match r.below(if only_chunk { 7 } else { 5 }) {
+    match r.below(if only_chunk { 10 } else { 8 }) {
         0 => {
             // one range insert
             writeln!(out, "insert_range b0 in:{} ex:{}", start, start + t).unwrap();
@@ -64,6 +64,43 @@ fn produce(r: &mut Rng, out: &mut String, k: u64, t: u64, only_chunk: bool) {
             }
         }
         5 => {
+            // sorted append in one call: all of it accepted, or refused late - after the chunk has crossed the limit
+            // inside this very call - by a final out-of-order value (the accepted prefix stays, as documented).
+            // Only meaningful on top of the value: the chunks are produced in ascending key order
+            let mut s = String::new();
+            for i in 0..t {
+                write!(s, " {}", start + i + i / 2000).unwrap();
+            }
+            if r.chance(2, 3) {
+                write!(s, " {}", start + *r.pick(&[0u64, 5, 4000])).unwrap();
+            }
+            writeln!(out, "append b0{}", s).unwrap();
+        }
+        6 | 7 => {
+            // the chunk is the result of a binary operator (6) / a multi-operand operation (7) on operands whose
+            // chunks are bitsets: the result has to shrink back to exactly t values
+            let x = *r.pick(&[1u64, 100, 4000, 5000]);
+            let op = *r.pick(&["and", "sub", "xor"]);
+            let (a, b) = match op {
+                "and" => ((start, start + t + x), (start + x, start + t + x + r.range(1, 5000))),
+                "sub" => ((start, start + t + x), (start + t, start + t + x + r.range(0, 50))),
+                _ => ((start, start + t + x), (start + t, start + t + x)),
+            };
+            writeln!(out, "new b10").unwrap();
+            writeln!(out, "new b11").unwrap();
+            writeln!(out, "insert_range b10 in:{} in:{}", a.0, a.1.min(base + 65536) - 1).unwrap();
+            if b.1 > b.0 {
+                writeln!(out, "insert_range b11 in:{} in:{}", b.0.min(base + 65535), b.1.min(base + 65536) - 1).unwrap();
+            }
+            if r.chance(1, 2) {
+                writeln!(out, "new b12").unwrap();
+                writeln!(out, "multi {} {} exact b12 b10 b11", op, *r.pick(&["own", "ref", "res_own", "res_ref"])).unwrap();
+            } else {
+                writeln!(out, "{} {} b12 b10 b11", op, *r.pick(&["oo", "or", "ro", "rr", "ao", "ar"])).unwrap();
+            }
+            writeln!(out, "or {} b0 b0 b12", *r.pick(&["ao", "ar", "rr", "oo"])).unwrap();
+        }
+        8 => {
             // too many values, then remove_smallest (bitset -> array rebuild inside Container::remove_smallest)
             let extra = *r.pick(&[1u64, 2, 3, 100, 4000]);
             writeln!(out, "insert_range b0 in:{} ex:{}", start, start + t + extra).unwrap();
